@@ -1,5 +1,6 @@
 import ZstdVerif.Model.Conform
 import ZstdVerif.Model.Walker
+import ZstdVerif.Model.Bound
 import Driver.Util
 namespace Driver.Dec
 open ZstdVerif
@@ -41,6 +42,7 @@ def step (_ : Unit) (ws : List String) : Unit × String :=
                 ||| (if tr.litStreams == 4 then 1 <<< 8 else 0) ||| (if tr.nbSeq == 0 then 1 <<< 9 else (1 <<< (10 + a)) ||| (1 <<< (14 + o)) ||| (1 <<< (18 + m)))
                 ||| (if tr.nbSeq ≥ 0x7F00 then 1 <<< 22 else 0)) c) 0
         ((), s!"ok frames={trs.size} blocks={blocks} seqs={seqs} cov={cov}")
+  | ["cbound", n] => ((), if n.toNat! ≥ Gen.ZSTD_MAX_INPUT_SIZE then "E" else toString (Bound.compressBound n.toNat!))
   | ["walk", hx] =>
       let b := if hx == "-" then ByteArray.empty else ByteArray.ofHex hx
       ((), match Walker.frames (fun i => b.u8 i) (b.size + 1) 0 b.size with
